@@ -33,6 +33,8 @@ def main(tier, replay_payload=None):
                      "every file-system operation of every call is inspected; trace check for in-place writes")
     run.replayer = lambda p: crash.replay_crash(w_args, menu_fn, p["vals"], p["clauses"], recover=False)
     res = crash.explore_crashes(w_args, menu_fn, recover=False)
+    from engine import battery
+    battery.validate(run)
     fold(run, res, "C09:", w_args)
     run.functions = loader.function_lines(loader.load(), API_FUNCS)
     run.bounds = dict(pids=w_args["pids"], contents=[len(c) for c in w_args["contents"]], block_size_in_model=4,
